@@ -265,7 +265,10 @@ func (c *c16) prefixRun(p []byte, bkeys [][]byte, pl []int, ops []sop, prog []in
 		parent.Set(bkeys[i], v)
 		model[string(bkeys[i])] = v
 	}
-	st := prefix.NewStore(parent, p)
+	// the prefix slice is handed over with spare capacity, as types/param.go builds subspace prefixes
+	// (append on an over-allocated name): the store must not let appends to it alias each other
+	pp := append(make([]byte, 0, len(p)+16), p...)
+	st := prefix.NewStore(parent, pp)
 	for step, oi := range prog {
 		o := ops[oi]
 		got := applySop(st, o)
@@ -719,7 +722,7 @@ func (c *c16) stackCheck(tier string) {
 			for _, l := range perm { // perm[0] is the innermost wrapper
 				switch l {
 				case "prefix":
-					st = prefix.NewStore(st, pfx)
+					st = prefix.NewStore(st, append(make([]byte, 0, 32), pfx...))
 					hasPrefix = true
 				case "gas":
 					st = gaskv.NewStore(st, stypes.NewInfiniteGasMeter(), stypes.KVGasConfig())
